@@ -139,6 +139,25 @@ def one(rec, hub, seed, tier, i):
         has_index = not isinstance(df.index, pd.RangeIndex) or df.index.names != [None]
         named = df.index.names != [None]
         df = F.csv_roundtrip(df, index=bool(named))
+    if layout == "long" and header in ("names", "letters") and not csv and in_index == "none" and i % 11 == 0:
+        # last sentence of the property: an entry comes from the UNIQUE row carrying its labels.  A second row for an entry whose
+        # int label is spelled as text (the same label after conversion), standing in for another row, must not be merged silently.
+        cols_i = [c for c in df.columns if c in info["dimcol_of"] and info["dimcol_of"][c][3] is int]
+        if cols_i and len(df) > 2:
+            c0 = cols_i[0]
+            d2 = df.reset_index(drop=True).copy()
+            d2[c0] = d2[c0].astype(object)
+            dup = d2.iloc[[0]].copy()
+            dup.iloc[0, list(d2.columns).index(c0)] = str(dup.iloc[0, list(d2.columns).index(c0)])
+            dup[vname] = dup[vname] + 0.5
+            d2 = pd.concat([d2.drop(index=1), dup], ignore_index=True)
+            rec.event(MF, sig=f"respelled-duplicate|nd={k}|{header}", cls="from_df|respelled-duplicate-row")
+            for am in (False, True):
+                try:
+                    fd.FlodymArray.from_df(dims=dims, df=d2, allow_missing_values=am)
+                except Exception:
+                    continue
+                rec.violation(MF, "from_df:merged-two-rows-of-one-entry-spelled-differently", {"allow_missing_values": am, "column": str(c0), "head": d2.tail(3).astype(str).to_dict("split")["data"]})
     types = "".join("i" if s[3] is int else "s" if s[3] is str else "u" for s in spec)
     sig = f"nd={k}|{types}|{layout}|{info['wide_dim']}|{header}|{in_index}|{vname == 'value'}|csv={csv}|omit={omit}|lens={[len(s[2]) for s in spec]}"
     rec.event(MF, sig=sig, cls=f"from_df|{layout}|{header}|idx={in_index}|csv={csv}",
